@@ -16,5 +16,5 @@ go test -vet=off -count=1 "$@" -run "$rx" "./$pkg/" > /tmp/confirm_$$.with 2>&1;
 rm "$pkg/zz_seed_demo_test.go"
 go test -vet=off -count=1 ./... 2>&1 | grep -v "no test files" | grep -v "^ok" > /tmp/confirm_$$.suite
 echo "demo without change: exit $r0; with change: exit $r1"
-echo "suite failures with change (flaky TestHnswSearchLevel* ignored):"; grep -E "^(--- FAIL|FAIL|panic)" /tmp/confirm_$$.suite | grep -v "TestHnswSearchLevel" | head -10
+echo "suite failures with change (flaky TestHnswSearchLevel* ignored):"; grep -E "^(--- FAIL|panic|FAIL.*build failed)" /tmp/confirm_$$.suite | grep -v "TestHnswSearchLevel" | head -10
 rm -f /tmp/confirm_$$.*
